@@ -280,6 +280,21 @@ impl GenSource {
             let l = *rng.pick(&[61usize, 62, 63, 64, 65]);
             owner = Name(vec![vec![b'k'; l], b"example".to_vec()]);
         }
+        if big.is_none() && v.model.opt_index().is_none() && rng.chance(1, 25) {
+            // adding EDNS to a packet that has none: an OPT record appended to the additional section
+            let opt = gen_opt(rng);
+            let rd = match opt.rdata {
+                RData::Opaque(o) => o,
+                _ => Vec::new(),
+            };
+            return Op::InsertRR {
+                section: 3,
+                name_text: ".".into(),
+                rtype: T_OPT,
+                ttl: opt.ttl,
+                rdata: rd,
+            };
+        }
         let (rtype, rdata) = if let Some(n) = big {
             (*rng.pick(&[16u16, 99]), rng.bytes(n))
         } else {
